@@ -35,6 +35,9 @@ def idx (nx ny : Nat) (c : Coord) : Nat := c.x + nx * c.y + nx * ny * c.z
 
 def InBox (nx ny nz : Nat) (c : Coord) : Prop := c.x < nx ∧ c.y < ny ∧ c.z < nz
 
+instance (nx ny nz : Nat) (c : Coord) : Decidable (InBox nx ny nz c) := by
+  unfold InBox; infer_instance
+
 /-! ### the diagonals of the code, entry at `(i, j)` with `i < j` -/
 
 /-- `np.diag(dx_pattern, k=1)`: `dx_pattern[i] = 0` iff `(i+1) % n_x == 0` -/
